@@ -2,6 +2,7 @@
   C14 — validation options only restrict; each checks exactly its bits; the default is version only.
 -/
 import Rl2tp.Proofs.Options
+import Rl2tp.Proofs.SpecBridge
 namespace Rl2tp.C14
 
 /-- accepted under stronger options ⇒ accepted with the same value (and the same remaining input)
@@ -169,5 +170,14 @@ example : (decode { reserved := true, version := true, unused := false } : M Byt
     = .ok (.control { length := 12, tunnelId := 1, sessionId := 2, ns := 3, nr := 4, avps := [] }) [] := by decide
 example : (decode Opts.strict : M Bytes _ Msg) [0x93, 0x20, 0, 12, 0, 1, 0, 2, 0, 3, 0, 4]
     = .err [.forbiddenControlMessagePriority] [0, 12, 0, 1, 0, 2, 0, 3, 0, 4] := by decide
+
+/-- which bits the three checks look at, as masks on the two flag octets as they arrive (all 65 536 flag words, kernel
+    evaluation): "reserved" = 0x2C of the first octet and 0x0F of the second, "version" = the high nibble of the second,
+    "unused" = P (0x80) and O (0x40) of the first -/
+theorem checked_bits_are_masks (x y : UInt8) :
+    reservedOk (word16 x y) = (x &&& 0x2C == 0 && y &&& 0x0F == 0) ∧ version (word16 x y) = y >>> 4 ∧
+    isPrioritized (word16 x y) = (x &&& 0x80 != 0) ∧ hasOffset (word16 x y) = (x &&& 0x40 != 0) := by
+  obtain ⟨_, _, _, h4, h5, h6, h7⟩ := Spec.flags_eq x y
+  exact ⟨h7.symm, h6.symm, h5.symm, h4.symm⟩
 
 end Rl2tp.C14
